@@ -258,6 +258,44 @@ func c27FsmCodecs() []*kit.Codec {
 			}
 			return c27Subs{x.channelID, x.channelType, x.uids, x.subscriberMutationVersion}, true
 		}, subsEq, subs))
+	// declared maxima: MaxSubscriberCommandUIDs = 1000 uids, MaxSubscriberCommandUIDBytes = 64 KiB of
+	// NUL-joined uids per command (the decoder enforces both)
+	uidsN := func(n int) []string {
+		out := make([]string, n)
+		for i := range out {
+			out[i] = fmt.Sprintf("u%04d", i)
+		}
+		return out
+	}
+	uidsBytes := func(total int) []string { // two uids whose NUL-joined length is exactly total
+		a := make([]byte, total/2)
+		b := make([]byte, total-total/2-1)
+		for i := range a {
+			a[i] = 'a'
+		}
+		for i := range b {
+			b[i] = 'b'
+		}
+		return []string{string(a), string(b)}
+	}
+	subBoundary := []kit.Value{
+		{Label: "uids=999", V: c27Subs{"g", 2, uidsN(MaxSubscriberCommandUIDs - 1), 1}},
+		{Label: "uids=1000", V: c27Subs{"g", 2, uidsN(MaxSubscriberCommandUIDs), 1}},
+		{Label: "uid-bytes=65535", V: c27Subs{"g", 2, uidsBytes(MaxSubscriberCommandUIDBytes - 1), 0}},
+		{Label: "uid-bytes=65536", V: c27Subs{"g", 2, uidsBytes(MaxSubscriberCommandUIDBytes), 0}},
+	}
+	subOver := []kit.Value{
+		{Label: "uids=1001", V: c27Subs{"g", 2, uidsN(MaxSubscriberCommandUIDs + 1), 1}},
+		{Label: "uid-bytes=65537", V: c27Subs{"g", 2, uidsBytes(MaxSubscriberCommandUIDBytes + 1), 0}},
+	}
+	out[len(out)-1].Boundary, out[len(out)-1].OverMax = subBoundary, subOver
+	defer func() {
+		for _, c := range out {
+			if c.Name == "fsm.RemoveSubscribers" {
+				c.Boundary, c.OverMax = subBoundary, subOver
+			}
+		}
+	}()
 	out = append(out, c27Cmd("RemoveSubscribers", func(p c27Subs) []byte { return EncodeRemoveSubscribersCommand(p.ID, p.Type, p.UIDs, p.Version) },
 		func(c command) (c27Subs, bool) {
 			x, ok := c.(*removeSubscribersCmd)
